@@ -25,15 +25,15 @@ def corpus_cases():
 def main():
     chk = common.Check('C19')
     import locale_common as C
-    proved = chk.prove('I18n.Props.C19', generated=('locale', 'linglang'), extra_targets=())
-    problems = ' '.join(p for p in chk.lean.problems if 'translator(linglang)' not in p)
+    proved = chk.prove('I18n.Props.C19', generated=('locale', 'linglang', 'chklang'), extra_targets=())
+    problems = ' '.join(p for p in chk.lean.problems if 'translator(linglang)' not in p and 'translator(chklang)' not in p)
     # the tie by translation: lib/ling.py (class Language, parse_language, the code look-ups) regenerated from the current source and proved
     # equal to the model the theorems above are about (Props/C19Tie.lean)
-    tie_ok = common.prove_tie(chk, 'I18n.Props.C19Tie', ('linglang',),
+    tie_ok = common.prove_tie(chk, 'I18n.Props.C19Tie', ('linglang', 'chklang'),
                               'lib/ling.py regenerated from the current source (Generated/Ling.lean) is no longer proved equal to the model '
                               '(Locale.parseLanguageE, fixCodes, removeEncoding, removeNonlinguisticModifier, isAlmostEqual, Language.str: '
                               'generated_*_eq_model and the clause-1/clause-2 corollaries)')
-    driver_ok = os.path.exists(common.driver_path()) and not any('untranslatable' in s for k, s in chk.lean.translation.items() if k != 'linglang') \
+    driver_ok = os.path.exists(common.driver_path()) and not any('untranslatable' in s for k, s in chk.lean.translation.items() if k not in ('linglang', 'chklang')) \
         and 'Driver' not in problems and 'I18n.Model' not in problems and 'I18n.Spec' not in problems and 'I18n.Generated' not in problems
     rng = chk.rng
     T = C.gen_tables()
